@@ -551,6 +551,16 @@ theorem index_dist_eq_flatten_partial (S : Scanners) (layers : List FSLayer) (hs
     (e.distId = "" ∧ e.repoIds ≠ []) :=
   index_dist_eq_flatten hs hr hes he
 
+/-- `index_dists_eq_flatten_partial`: on the same stacks the `Distributions` map of the finished report holds
+    exactly the distributions the OS ecosystems' scanners find on the flattened image (no distribution of an
+    older release lingers, none is missing). -/
+theorem index_dists_eq_flatten_partial (S : Scanners) (layers : List FSLayer) (hs : DistStable S layers)
+    (r : Report) (hr : indexModel S layers = some r) (k : String) :
+    (aget k r.dists).isSome ↔
+      (∃ d ∈ S.osDbs, ∃ D, imageDist S false d layers = some D ∧ D.id = k) ∨
+      (∃ d ∈ S.rhelDbs, ∃ D, imageDist S true d layers = some D ∧ D.id = k) :=
+  index_dists_eq_flatten hs hr k
+
 set_option maxRecDepth 10000 in
 /-- the hypothesis holds on the worked example, with a distribution actually found -/
 theorem dist_stable_example : DistStable Ex.S0 Ex.tameStack ∧ imgDistId Ex.S0 false Ex.dpkgDB Ex.tameStack = "debian-12" := by
